@@ -30,6 +30,7 @@ import (
 	"testing"
 	"time"
 
+	"github.com/hyperledger/firefly-common/pkg/config"
 	"github.com/hyperledger/firefly-signer/pkg/eip712"
 	"github.com/hyperledger/firefly-signer/pkg/ethsigner"
 	"github.com/hyperledger/firefly-signer/pkg/ethtypes"
@@ -70,6 +71,10 @@ type Cfg struct {
 	Default   bool   `json:"default"`
 	Listener  bool   `json:"listener"`
 	Cache     int    `json:"cache"`
+	// ViaSection: the configuration goes through the documented config keys
+	// (fswallet.InitConfig / ReadConfig; "auto" format and trimming left at their documented
+	// defaults) instead of a Config struct literal.
+	ViaSection bool `json:"viaSection,omitempty"`
 }
 
 type V3Spec struct {
@@ -185,6 +190,49 @@ func (c Cfg) pwTemplate() string {
 }
 
 func (c Cfg) build(root string) *fswallet.Config {
+	if c.ViaSection {
+		return c.buildViaSection(root)
+	}
+	return c.buildStruct(root)
+}
+
+func (c Cfg) buildViaSection(root string) *fswallet.Config {
+	config.RootConfigReset()
+	sec := config.RootSection("fileWallet")
+	fswallet.InitConfig(sec)
+	sec.Set(fswallet.ConfigPath, filepath.Join(root, "w"))
+	sec.Set(fswallet.ConfigSignerCacheSize, c.Cache)
+	sec.Set(fswallet.ConfigDisableListener, !c.Listener)
+	if re := c.regex(); re != "" {
+		sec.Set(fswallet.ConfigFilenamesPrimaryMatchRegex, re)
+	}
+	sec.Set(fswallet.ConfigFilenamesPrimaryExt, c.Ext)
+	sec.Set(fswallet.ConfigFilenamesPasswordExt, c.PwExt)
+	if !c.Trim { // documented default: true
+		sec.Set(fswallet.ConfigFilenamesPasswordTrimSpace, false)
+	}
+	if c.With0x { // documented default: unset / false
+		sec.Set(fswallet.ConfigFilenamesWith0xPrefix, true)
+	}
+	if c.Format != "auto" { // documented default: auto
+		sec.Set(fswallet.ConfigMetadataFormat, c.Format)
+	}
+	if t := c.keyTemplate(); t != "" {
+		sec.Set(fswallet.ConfigMetadataKeyFileProperty, t)
+	}
+	if t := c.pwTemplate(); t != "" {
+		sec.Set(fswallet.ConfigMetadataPasswordFileProperty, t)
+	}
+	if c.PwDir {
+		sec.Set(fswallet.ConfigFilenamesPasswordPath, filepath.Join(root, "p"))
+	}
+	if c.Default {
+		sec.Set(fswallet.ConfigDefaultPasswordFile, filepath.Join(root, "default.pw"))
+	}
+	return fswallet.ReadConfig(sec)
+}
+
+func (c Cfg) buildStruct(root string) *fswallet.Config {
 	conf := &fswallet.Config{
 		Path:            filepath.Join(root, "w"),
 		SignerCacheSize: strconv.Itoa(c.Cache),
@@ -1194,6 +1242,7 @@ func analyze(c Case, nearMissNames map[string]bool) (classes []string, nontrivia
 	set["naming:"+c.Cfg.Naming] = true
 	set["format:"+c.Cfg.effFormat()+"(configured "+strconv.Quote(c.Cfg.Format)+")"] = true
 	set["listener:"+strconv.FormatBool(c.Cfg.Listener)] = true
+	set["config-via-documented-keys:"+strconv.FormatBool(c.Cfg.ViaSection)] = true
 	set["trim:"+strconv.FormatBool(c.Cfg.Trim)] = true
 	set["with0x:"+strconv.FormatBool(c.Cfg.With0x)] = true
 	set["pwdir:"+strconv.FormatBool(c.Cfg.PwDir)] = true
